@@ -205,3 +205,128 @@ Print Assumptions C15_model_satisfies_property_core.
 Theorem C15_checker_sound : forall strict blocked t prev, Pb strict blocked prev t = true -> P strict blocked prev t.
 Proof. exact Pb_sound. Qed.
 Print Assumptions C15_checker_sound.
+
+(* ================================================================== MESSAGE CARRIERS
+   Token-factory messages nested in authz MsgExec wrappers (any depth, with or without grants),
+   dispatched by a CosmWasm contract, or both.  [reaches c w blocked t s l sl]: tree [t], run from
+   state [s], arrives at leaf [l] in state [sl] along a path on which every delegation edge is
+   vouched for (ProofsTree.v): below MsgExec{grantee g} the message is g's own or its signer has
+   granted g that message type (on record when the message starts); a message a contract dispatches
+   is the contract's own.  [wasm_signer c = true]: the contract message handler compares the signers
+   of EVERY dispatched message with the contract (obligation over the generated facts, Gen/C15Oblig.v). *)
+Require Import Nib.C17.MsgTree Nib.C15.ProofsTree.
+
+(** SUPPLY: whatever supply a message tree moves was moved by a REACHED Mint / Burn of that denom,
+    signed by the admin on record in the state it ran in, by exactly the stated amount (or by a native
+    burn of the signer's own coins — the partial form of the first theorem of this file) *)
+Theorem C15_carriers_supply_moves_only_by_reached_admin_message_partial :
+  forall c w blocked, wasm_signer c = true ->
+  forall t s s' d, trun c w blocked t s = Some s' -> supply (tf s') d <> supply (tf s) d ->
+  exists a o sl t', reaches c w blocked t s (LOp a o) sl /\ step blocked (tf sl) o = Some t' /\
+                    (supply_mover (tf sl) t' o d \/ own_native_burn (tf sl) t' o d).
+Proof. exact tree_supply_step. Qed.
+Print Assumptions C15_carriers_supply_moves_only_by_reached_admin_message_partial.
+
+(** CONTROL through carriers *)
+Theorem C15_carriers_admin_moves_only_by_reached_admin_message :
+  forall c w blocked, wasm_signer c = true ->
+  forall t s s' d, inv (tf s) -> trun c w blocked t s = Some s' -> admins (tf s') d <> admins (tf s) d ->
+  exists a o sl t', reaches c w blocked t s (LOp a o) sl /\ step blocked (tf sl) o = Some t' /\
+    ((exists sender new nv, o = ChangeAdmin sender d new nv /\ admins (tf sl) d = Some sender /\ admins t' d = Some new) \/
+     (exists sender sub, o = Create sender sub /\ d = tf_denom sender sub /\ admins (tf sl) d = None /\
+        admins t' d = Some sender /\ parse_denom d = Some (sender, sub))).
+Proof. exact tree_admin_step. Qed.
+Print Assumptions C15_carriers_admin_moves_only_by_reached_admin_message.
+
+(** BALANCES through carriers *)
+Theorem C15_carriers_balance_moves_only_by_reached_message :
+  forall c w blocked, wasm_signer c = true ->
+  forall t s s' acct d, trun c w blocked t s = Some s' -> bal (tf s') acct d <> bal (tf s) acct d ->
+  exists a o sl t', reaches c w blocked t s (LOp a o) sl /\ step blocked (tf sl) o = Some t' /\
+    ((exists sender dv amt to, o = Mint sender d dv amt to /\ admins (tf sl) d = Some sender /\ acct = resolve to sender /\
+        bal t' acct d = bal (tf sl) acct d + amt /\ 0 < amt /\ mem_str acct blocked = false) \/
+     (exists sender dv amt from, o = Burn sender d dv amt from /\ admins (tf sl) d = Some sender /\ acct = resolve from sender /\
+        bal t' acct d = bal (tf sl) acct d - amt /\ 0 < amt /\ amt <= bal (tf sl) acct d /\ mem_str acct blocked = false) \/
+     (exists dv amt, o = BurnNative acct d dv amt /\ bal t' acct d = bal (tf sl) acct d - amt /\ 0 < amt /\ amt <= bal (tf sl) acct d)).
+Proof. exact tree_balance_step. Qed.
+Print Assumptions C15_carriers_balance_moves_only_by_reached_message.
+
+(** … and for whole transactions (several trees, run in order) *)
+Theorem C15_carriers_tx_supply_moves_only_by_reached_admin_message_partial :
+  forall c w blocked, wasm_signer c = true ->
+  forall tx s s' d, trun_all c w blocked tx s = Some s' -> supply (tf s') d <> supply (tf s) d ->
+  exists pre t post s1 a o sl t', tx = (pre ++ t :: post)%list /\ trun_all c w blocked pre s = Some s1 /\
+    reaches c w blocked t s1 (LOp a o) sl /\ step blocked (tf sl) o = Some t' /\
+    (supply_mover (tf sl) t' o d \/ own_native_burn (tf sl) t' o d).
+Proof. exact ttx_supply_step. Qed.
+Print Assumptions C15_carriers_tx_supply_moves_only_by_reached_admin_message_partial.
+
+Theorem C15_carriers_tx_admin_moves_only_by_reached_admin_message :
+  forall c w blocked, wasm_signer c = true ->
+  forall tx s s' d, inv (tf s) -> trun_all c w blocked tx s = Some s' -> admins (tf s') d <> admins (tf s) d ->
+  exists pre t post s1 a o sl t', tx = (pre ++ t :: post)%list /\ trun_all c w blocked pre s = Some s1 /\
+    reaches c w blocked t s1 (LOp a o) sl /\ step blocked (tf sl) o = Some t' /\
+    ((exists sender new nv, o = ChangeAdmin sender d new nv /\ admins (tf sl) d = Some sender /\ admins t' d = Some new) \/
+     (exists sender sub, o = Create sender sub /\ d = tf_denom sender sub /\ admins (tf sl) d = None /\
+        admins t' d = Some sender /\ parse_denom d = Some (sender, sub))).
+Proof. exact ttx_admin_step. Qed.
+Print Assumptions C15_carriers_tx_admin_moves_only_by_reached_admin_message.
+
+(** A contract dispatches only its own messages, whatever their type — in particular never a MsgExec
+    that names somebody else (e.g. a denom admin) as grantee: the whole contract call fails *)
+Theorem C15_contract_dispatches_only_its_own_messages :
+  forall c w blocked, wasm_signer c = true ->
+  forall snd ctr cs s s', trun c w blocked (Wasm snd ctr cs) s = Some s' -> Forall (fun t => tsigner t = ctr) cs.
+Proof. exact contract_dispatches_only_its_own. Qed.
+Print Assumptions C15_contract_dispatches_only_its_own_messages.
+
+Theorem C15_contract_cannot_exec_for_others :
+  forall c w blocked, wasm_signer c = true ->
+  forall snd ctr g inner pre post s, g <> ctr ->
+  trun c w blocked (Wasm snd ctr (pre ++ Exec g inner :: post)) s = None.
+Proof. exact contract_cannot_exec_for_others. Qed.
+Print Assumptions C15_contract_cannot_exec_for_others.
+
+(** Below a MsgExec: the grantee's own message, or a grant on record *)
+Theorem C15_exec_child_is_grantees_or_granted :
+  forall c w blocked g t s s', trun c w blocked (Exec g [t]) s = Some s' ->
+  tsigner t = g \/ wgranted s (tsigner t) g (tkind t) = true.
+Proof. exact exec_child_vouched. Qed.
+Print Assumptions C15_exec_child_is_grantees_or_granted.
+
+(** THE SAME STATEMENTS ARE FALSE for a handler that does not compare the signers of (some) dispatched
+    messages with the contract: the contract — which is not the admin — dispatches
+    MsgExec{grantee: admin}[MsgMint{sender: admin}] and mints; no leaf of that tree is reached along
+    vouched edges and the authority walk refuses it. *)
+Theorem C15_carriers_unchecked_handler_refuted :
+  exists s', trun cfg_unchecked harness_world [] witness_tree witness_state = Some s' /\
+             supply (tf s') "tf/@1/gold" <> supply (tf witness_state) "tf/@1/gold" /\
+             admins (tf witness_state) "tf/@1/gold" = Some "@1"%string /\
+             (forall l sl, ~ reaches cfg_unchecked harness_world [] witness_tree witness_state l sl) /\
+             walk harness_world witness_tree (gr witness_state) = None.
+Proof. exact unchecked_handler_refuted. Qed.
+Print Assumptions C15_carriers_unchecked_handler_refuted.
+
+(** Every tx the model accepts passes the authority walk the trace checker evaluates (same grants
+    afterwards); a rejected tx changes nothing (ledger and grants) *)
+Theorem C15_accepted_tx_passes_authority_walk :
+  forall c w blocked, wasm_signer c = true -> (forall a, w_ica_acct w a = false) ->
+  forall tx s s', trun_all c w blocked tx s = Some s' -> walk_all w tx (gr s) = Some (gr s').
+Proof. exact accepted_tx_passes_walk. Qed.
+Print Assumptions C15_accepted_tx_passes_authority_walk.
+
+Theorem C15_rejected_carrier_tx_changes_nothing :
+  forall c w blocked s tx, snd (deliver_ttx c w blocked s tx) = false -> fst (deliver_ttx c w blocked s tx) = s.
+Proof. exact deliver_ttx_rejected. Qed.
+Print Assumptions C15_rejected_carrier_tx_changes_nothing.
+
+Theorem C15_registry_invariant_preserved_by_trees :
+  forall c w blocked t s s', trun c w blocked t s = Some s' -> inv (tf s) -> inv (tf s').
+Proof. exact trun_inv. Qed.
+Print Assumptions C15_registry_invariant_preserved_by_trees.
+
+(** The boolean checker over traces of message trees is sound for [Pt] *)
+Theorem C15_tree_checker_sound :
+  forall strict blocked w t prev G, Pbt strict blocked w prev G t = true -> Pt strict blocked w prev G t.
+Proof. exact Pbt_sound. Qed.
+Print Assumptions C15_tree_checker_sound.
